@@ -28,7 +28,7 @@ CXX = os.environ.get("JV_CXX", "clang++")
 BASE = ["-std=c++17", "-Ofast", "-fno-vectorize", "-fPIC", "-DEMBEDDED_PAIRING_VERIF", "-fno-omit-frame-pointer"]
 REPLICAS = {
     "A": [],
-    "As": ["-mbmi2", "-madx"],
+    "As": ["-mbmi2", "-madx", "-DNDEBUG"],   # the "release" build: static BMI2/ADX selection and NDEBUG (the unchanged tree has no assert, so this changes nothing there)
     "B": ["-DDISABLE_ASM"],
     "C": ["-DDISABLE_ASM", "-U__SIZEOF_INT128__", "-funsigned-char"],   # 32-bit words as a Cortex-M0+ build has them, and plain char unsigned as in the ARM ABIs (on x86-64 it is signed: replicas A, As, B, G)
     "G": ["@g++"],          # the same sources through the other compiler the Makefile names (g++, asm back end); plain flavour only
